@@ -155,6 +155,22 @@ def scale_cex(ctx, H):
     return []
 
 
+def long_run_items():
+    """a deterministic trace (one answer set per horizon: a alternates, b holds at every third state) observed to horizon 8 by formulas with counts
+    larger than small horizons, deep nestings and operators that stay pending over many steps"""
+    R = lambda part, head, body: {'part': part, 'head': head, 'body': body}
+    ctxp = [R('initial', ('norm', 'c0', 0), []), R('dynamic', ('norm', 'c1', 0), [('p', ('patom', 'c0', 1))]), R('dynamic', ('norm', 'c2', 0), [('p', ('patom', 'c1', 1))]),
+            R('dynamic', ('norm', 'c0', 0), [('p', ('patom', 'c2', 1))]), R('always', ('norm', 'b', 0), [('p', ('patom', 'c0', 0))]),
+            R('initial', ('norm', 'a', 0), []), R('dynamic', ('norm', 'a', 0), [('n', ('patom', 'a', 1))])]
+    a, b = ('atom', 'a'), ('atom', 'b')
+    fs = [('next', 5, a), ('wnext', 7, b), ('prev', 4, b), ('wprev', 6, a), ('until', a, ('and', b, ('next', 4, a))), ('trigger', None, ('or', a, ('prev', 2, b))),
+          ('release', None, ('or', a, ('next', None, ('next', None, ('next', None, b))))), ('since', ('or', a, b), ('and', b, ('wprev', 3, a))),
+          ('until', None, ('and', ('prev', 3, b), ('next', 3, b))), ('and', ('next', 2, ('next', 3, ('prev', 4, a))), ('wnext', 8, ('false',))),
+          ('not', ('until', ('not', a), ('not', ('release', b, ('next', None, a))))), ('initially', ('next', 6, b)), ('finally', ('prev', 5, a)),
+          ('seqnext', b, ('seqnext', a, ('seqnext', b, a))), ('release', ('next', 2, a), ('or', b, ('wnext', 2, b)))]
+    return [(ctxp, [('tel', f) for f in fs[i:i + 4]]) for i in range(0, len(fs), 4)]
+
+
 def run(ctx):
     H = 3 if ctx.quick else 4
     its = items(ctx)
@@ -166,6 +182,9 @@ def run(ctx):
         r = s4.value_check(ctx, [(c, fs)], H)[0]
         if r['status'] in ('differ', 'implerror'):
             cex.insert(0, value_cex([r], [(c, fs)])[0])
+    lits = long_run_items()
+    lrecs = s4.value_check(ctx, lits, 8)
+    cex += value_cex(lrecs, lits)
     progs = constraint_programs(ctx)
     maxbits = 12 if ctx.quick else 13
     recs2 = s4.compare(ctx, [p for _, p in progs], 3 if ctx.quick else 4, maxbits)
@@ -195,7 +214,7 @@ def run(ctx):
     for r in recs:
         stat[r['status']] = stat.get(r['status'], 0) + 1
     nontriv = len({r['program'] for r in recs if r['status'] == 'agree' and 0 < r['true_values'] < r['values']})
-    cov = {'evaluations': len(recs) + len(recs2) + len(srecs) + 2 * (40 if ctx.quick else 200), 'renamed_programs_with_answer_sets': rnon, 'structure_status_histogram': sstat, 'structure_events_compared': sum(r['events'] for r in srecs), 'distinct_nontrivial': nontriv + res2['coverage']['distinct_nontrivial'],
+    cov = {'evaluations': len(recs) + len(recs2) + len(srecs) + len(lrecs) + 2 * (40 if ctx.quick else 200), 'long_run_status': [r['status'] for r in lrecs], 'renamed_programs_with_answer_sets': rnon, 'structure_status_histogram': sstat, 'structure_events_compared': sum(r['events'] for r in srecs), 'distinct_nontrivial': nontriv + res2['coverage']['distinct_nontrivial'],
            'rule': 'witness programs: random context program over a,b(,c) + 1-4 witness rules over formulas of depth <= %d drawn with a shared sub-formula pool; horizons 0..%d '
                    'of one incremental run; every state of every answer set is compared with TEL.lsat; non-trivial = a program whose witness values are neither all true nor all false; '
                    'constraint programs: %s; structure: %d programs of 1-3 observer constraints over related formulas (all operators except the keywords &initial/&final and >>), '
